@@ -18,7 +18,7 @@ def offsets(five):
     return [5, (1 << 32) - 1, 9, 77]
 
 
-SIZES = [1, 3, 77, 1000000]
+SIZES = [1, 3, 77, 1000000, 0]      # 0: the entry of an empty blob (live: not negative, not the tombstone value)
 
 
 def decorate(rng, kind, ops):
